@@ -322,6 +322,24 @@ func TestC13(t *testing.T) {
 						}
 					}
 				}
+				// a small compressed packet that inflates to a compound message of more than 64 KiB (the part
+				// lengths are 16-bit, their sum is not): well-formed, under every cap, tiny on the wire
+				for _, shape := range [][2]int{{3, 30000}, {2, 40000}, {9, 10000}, {255, 300}, {2, 65535}, {70, 1000}} {
+					var parts [][]byte
+					for i := 0; i < shape[0]; i++ {
+						parts = append(parts, append([]byte{ml.VUserMsg}, bytes.Repeat([]byte{byte('a' + i%7)}, shape[1]-1)...))
+					}
+					z, err := ml.VCompressPayload(ml.VMakeCompound(parts), false)
+					must(err)
+					lab, _ := ml.AddLabelHeaderToPacket(z, cfg.Label)
+					got := x.rcv.n.D.NumMsgs()
+					x.packetCase(lab, fmt.Sprintf("compressed compound of %d x %d bytes (%d on the wire)", shape[0], shape[1], len(lab)))
+					settle()
+					if d := x.rcv.n.D.NumMsgs() - got; d != 0 && d != shape[0] {
+						x.rep.Violate("large-compound-partly-delivered", fmt.Sprintf("%v: %d of %d user messages of a %d-byte compound reached the delegate", cfg, d, shape[0], shape[0]*shape[1]), nil)
+					}
+				}
+				x.livenessProbe("large compounds")
 				// compound claiming 255 parts with nothing behind it, and recursive self-similar junk
 				x.packetCase(append([]byte{ml.VCompoundMsg, 255}, bytes.Repeat([]byte{0xff}, 600)...), "compound 255 parts of 65535")
 				x.packetCase(append([]byte{ml.VCompoundMsg}, bytes.Repeat([]byte{ml.VCompoundMsg}, 3000)...), "compound of compounds")
